@@ -294,6 +294,72 @@ def check_colouring(idx, run):
                   loc(lcls.module, gen))
 
 
+def check_sequential_agreement(idx, run):
+    """The `sequential` option switches the dependence / colours checks off
+    in ParallelLoopTrans.validate.  Every transformation that stores it for
+    directive creation must store exactly that option (same key, same
+    default, no extra condition) and hand it to the directive: otherwise a
+    loop validated as 'will run serially' gets a parallel directive."""
+    base = idx.get_class(
+        "psyclone.psyir.transformations.parallel_loop_trans."
+        "ParallelLoopTrans")
+    val = base.methods.get("validate")
+    vdefs = [ast.unparse(s.value) for s in ast.walk(val)
+             if isinstance(s, ast.Assign) and
+             ast.unparse(s.targets[0]) == "sequential"]
+    if vdefs != ["options.get('sequential', False)"]:
+        raise AnalysisError("ParallelLoopTrans.validate no longer reads "
+                            "options.get('sequential', False)")
+    seen = 0
+    for cls in idx.all_subclasses(base):
+        for name, func in cls.methods.items():
+            for stmt in ast.walk(func):
+                if isinstance(stmt, ast.Assign) and any(
+                        ast.unparse(t) == "self._sequential"
+                        for t in stmt.targets):
+                    seen += 1
+                    txt = ast.unparse(stmt.value)
+                    ok = txt in ("options.get('sequential', False)",
+                                 "False")
+                    run.check(
+                        "C23.R3", ok, f"{cls.name}.{name}",
+                        "stores exactly the validated `sequential` option",
+                        f"{cls.name}.{name} stores self._sequential = "
+                        f"{txt}; validate() skips the colours and "
+                        f"dependence checks whenever options['sequential'] "
+                        f"is set, so the directive must be sequential in "
+                        f"exactly that case - with an extra condition a "
+                        f"loop over colours or an un-coloured increment "
+                        f"loop gets a parallel directive",
+                        loc(cls.module, stmt))
+        dfunc = cls.methods.get("_directive")
+        if dfunc is not None and "_sequential" in ast.unparse(dfunc):
+            txt = ast.unparse(dfunc)
+            run.check("C23.R3", "sequential=self._sequential" in txt,
+                      f"{cls.name}._directive",
+                      "directive receives the stored option",
+                      f"{cls.name}._directive does not pass "
+                      f"sequential=self._sequential to the directive",
+                      loc(cls.module, dfunc))
+    run.floor("stores of the sequential option", seen, 2)
+    # the directive writes `seq` (and not `independent`) when sequential
+    dcls = idx.get_class("ACCLoopDirective")
+    bfunc = dcls.methods.get("begin_string")
+    if bfunc is not None:
+        ok = False
+        for stmt in ast.walk(bfunc):
+            if isinstance(stmt, ast.If) and ast.unparse(stmt.test) == \
+                    "self._sequential":
+                body = " ".join(ast.unparse(b) for b in stmt.body)
+                other = " ".join(ast.unparse(b) for b in stmt.orelse)
+                ok = "seq" in body and "independent" not in body and \
+                    "seq" not in other
+        run.check("C23.R3", ok, "ACCLoopDirective.begin_string",
+                  "sequential loops are written `seq`",
+                  "a sequential ACC loop directive is no longer written "
+                  "with the `seq` clause only", loc(dcls.module, bfunc))
+
+
 def check(idx, run):
     run.explanation = __doc__
     check_lfric_omp_guards(idx, run)
@@ -303,6 +369,7 @@ def check(idx, run):
     check_lfric_independent(idx, run)
     check_inc_predicate(idx, run)
     check_colouring(idx, run)
+    check_sequential_agreement(idx, run)
     run.assumptions = [
         "the generic dependence analysis is not assumed to flag increment "
         "arguments; the domain rule (has_inc_arg) is what is checked",
